@@ -1,4 +1,507 @@
-//! `queue`: not built yet.
-pub fn run_case(_line: &str) -> String {
-    "unimplemented".to_string()
+//! `queue`: QueuingMetricSink in front of a *gated* wrapped sink, driven by a scripted history.
+//! Every call of the wrapped sink blocks in the gate until the script releases it with an
+//! outcome (Ok / Err(id) / panic); after every scripted action the harness waits until the
+//! background side has settled (worker blocked in the gate, or nothing left to dequeue, or —
+//! once no handle is left — the wrapped sink dropped).
+//!
+//! case:  Q <cap|u> <handler 0|1> <actions>
+//!   actions = comma list of  E<h> (emit on handle h) | C<h> (clone h) | D<h> (drop h)
+//!             | Rk | Re<id> | Rp (release the metric in the gate with Ok / Err(id) / panic) | S (sample counters)
+//!   handles are numbered in creation order, 0 = the original
+//! observation:  A:<per action, comma list>|DL:<delivered>|H:<handled>|X:<final>
+//!   per action: E -> k | f (channel full) | k!<n> (Ok with a wrong length) | x (other error)
+//!               C -> c ; D -> d ; R -> r | r- (gate empty) ; S -> s<submitted>.<drained>.<queued>.<panics>
+//!               suffixes: !stuck (the background side did not settle in time), !slow (the call took > 300 ms)
+//!   delivered: <acceptance index of the metric>:<k|e<id>|p> joined by ";" ; handled: <index>:<id>@<#completed deliveries>
+//!   final: rel<0|1> (wrapped sink dropped when the script ended) [caller] (wrapped sink or handler ran on the caller's thread)
+use crate::util::{payload_of, Payload};
+use cadence::{MetricSink, QueuingMetricSink};
+use std::io;
+use std::panic::{RefUnwindSafe, UnwindSafe};
+use std::sync::{Arc, Condvar, Mutex};
+use std::thread::{self, ThreadId};
+use std::time::{Duration, Instant};
+
+#[derive(Clone, Debug, PartialEq)]
+pub enum Outcome {
+    Ok,
+    Err(u64),
+    Panic,
+}
+
+pub struct GateSt {
+    pub inside: Option<String>,
+    pub release: Option<Outcome>,
+    pub auto: bool,
+    pub entered: usize,
+    pub log: Vec<(String, Outcome, ThreadId)>,
+    pub handled: Vec<(u64, usize, ThreadId)>,
+    pub dropped: bool,
+}
+
+pub struct Gate {
+    pub m: Mutex<GateSt>,
+    pub cv: Condvar,
+}
+
+impl UnwindSafe for Gate {}
+impl RefUnwindSafe for Gate {}
+
+impl Gate {
+    pub fn new() -> Arc<Gate> {
+        Arc::new(Gate {
+            m: Mutex::new(GateSt {
+                inside: None,
+                release: None,
+                auto: false,
+                entered: 0,
+                log: vec![],
+                handled: vec![],
+                dropped: false,
+            }),
+            cv: Condvar::new(),
+        })
+    }
+}
+
+pub struct GatedSink {
+    pub gate: Arc<Gate>,
+}
+
+impl MetricSink for GatedSink {
+    fn emit(&self, metric: &str) -> io::Result<usize> {
+        let o;
+        {
+            let mut st = self.gate.m.lock().unwrap();
+            st.inside = Some(metric.to_string());
+            st.entered += 1;
+            self.gate.cv.notify_all();
+            while st.release.is_none() && !st.auto {
+                st = self.gate.cv.wait(st).unwrap();
+            }
+            o = st.release.take().unwrap_or(Outcome::Ok);
+            st.inside = None;
+            st.log.push((metric.to_string(), o.clone(), thread::current().id()));
+            self.gate.cv.notify_all();
+        }
+        match o {
+            Outcome::Ok => Ok(metric.len()),
+            Outcome::Err(id) => Err(io::Error::new(io::ErrorKind::Other, Payload(id))),
+            Outcome::Panic => panic!("scripted panic of the wrapped sink"),
+        }
+    }
+}
+
+impl Drop for GatedSink {
+    fn drop(&mut self) {
+        let mut st = self.gate.m.lock().unwrap();
+        st.dropped = true;
+        self.gate.cv.notify_all();
+    }
+}
+
+const SETTLE: Duration = Duration::from_millis(400);
+const SLOW: Duration = Duration::from_millis(300);
+
+pub struct Rig {
+    pub gate: Arc<Gate>,
+    pub handles: Vec<Option<QueuingMetricSink>>,
+    pub accepted: Vec<String>,
+    pub cap: Option<usize>,
+    pub panics_released: u64,
+}
+
+impl Rig {
+    pub fn new(cap: Option<usize>, handler: bool) -> Rig {
+        let gate = Gate::new();
+        let sink = GatedSink { gate: gate.clone() };
+        let mut b = QueuingMetricSink::builder();
+        if let Some(c) = cap {
+            b = b.with_capacity(c);
+        }
+        if handler {
+            let g = gate.clone();
+            b = b.with_error_handler(move |e: io::Error| {
+                let mut st = g.m.lock().unwrap();
+                let n = st.log.len();
+                st.handled.push((payload_of(&e).unwrap_or(0), n, thread::current().id()));
+            });
+        }
+        let q = b.build(sink);
+        Rig {
+            gate,
+            handles: vec![Some(q)],
+            accepted: vec![],
+            cap,
+            panics_released: 0,
+        }
+    }
+
+    fn live(&self) -> usize {
+        self.handles.iter().filter(|h| h.is_some()).count()
+    }
+
+    /// wait until the background side has nothing more to do without the script; false = it did not
+    pub fn settle(&self) -> bool {
+        let deadline = Instant::now() + SETTLE;
+        let mut st = self.gate.m.lock().unwrap();
+        loop {
+            let done = if st.inside.is_some() {
+                true
+            } else if st.entered < self.accepted.len() {
+                false
+            } else if self.live() == 0 {
+                st.dropped
+            } else {
+                true
+            };
+            if done {
+                break;
+            }
+            let now = Instant::now();
+            if now >= deadline {
+                return false;
+            }
+            let (g, _) = self.gate.cv.wait_timeout(st, deadline - now).unwrap();
+            st = g;
+        }
+        drop(st);
+        // a panic of the wrapped sink is followed by Sentinel::drop (count + respawn) on the dying thread:
+        // quiescence includes that bookkeeping
+        if let Some(h) = self.handles.iter().flatten().next() {
+            while h.panics() < self.panics_released {
+                if Instant::now() >= deadline {
+                    return false;
+                }
+                thread::yield_now();
+            }
+        }
+        if self.cap == Some(0) {
+            // rendezvous channel: give the worker time to block in recv()
+            for _ in 0..20 {
+                thread::yield_now();
+            }
+            thread::sleep(Duration::from_millis(2));
+        }
+        true
+    }
+}
+
+/// Concurrent soak: `QS <cap|u> <producers> <emits per producer> <seed>`: every producer thread emits through its
+/// own clone while the wrapped sink answers on its own (Ok, with tiny pseudo-random pauses) and a sampler thread
+/// reads the counters; afterwards every handle is dropped.  The clauses of C08/C09/C10/C15 that speak about all
+/// interleavings are evaluated directly on what happened.  observation: "ok <accepted> <refused>" or "bad <what>".
+fn run_soak(t: &[&str]) -> String {
+    use std::sync::atomic::{AtomicBool, AtomicU64, Ordering};
+    let cap = if t[1] == "u" { None } else { Some(t[1].parse::<usize>().unwrap()) };
+    let nprod: usize = t[2].parse().unwrap();
+    let nemit: usize = t[3].parse().unwrap();
+    let seed: u64 = t[4].parse().unwrap();
+    let rig = Rig::new(cap, false);
+    {
+        let mut st = rig.gate.m.lock().unwrap();
+        st.auto = true;
+    }
+    let q0 = rig.handles[0].as_ref().unwrap().clone();
+    let stop = Arc::new(AtomicBool::new(false));
+    let bad = Arc::new(Mutex::new(Vec::<String>::new()));
+    let sampler = {
+        let q = q0.clone();
+        let stop = stop.clone();
+        let bad = bad.clone();
+        thread::spawn(move || {
+            let mut n = 0u64;
+            while !stop.load(Ordering::Acquire) {
+                let qd = q.queued();
+                let sub = q.submitted();
+                if qd > sub {
+                    bad.lock().unwrap().push(format!("queued() = {} > submitted() = {} read afterwards", qd, sub));
+                    break;
+                }
+                n += 1;
+                if n % 64 == 0 {
+                    thread::yield_now();
+                }
+            }
+        })
+    };
+    let okcount = Arc::new(AtomicU64::new(0));
+    let mut prods = vec![];
+    let acked: Arc<Mutex<Vec<Vec<usize>>>> = Arc::new(Mutex::new(vec![vec![]; nprod]));
+    for p in 0..nprod {
+        let q = q0.clone();
+        let okcount = okcount.clone();
+        let acked = acked.clone();
+        let bad = bad.clone();
+        prods.push(thread::spawn(move || {
+            let mut x = seed.wrapping_mul(6364136223846793005).wrapping_add(p as u64 * 1442695040888963407 + 1);
+            let mut mine = vec![];
+            for i in 0..nemit {
+                let m = format!("p{}.s{}:1|c", p, i);
+                let t0 = Instant::now();
+                match q.emit(&m) {
+                    Ok(n) => {
+                        if n != m.len() {
+                            bad.lock().unwrap().push(format!("emit returned Ok({}) for {} bytes", n, m.len()));
+                        }
+                        okcount.fetch_add(1, Ordering::Relaxed);
+                        mine.push(i);
+                    }
+                    Err(_) => {}
+                }
+                if t0.elapsed() > SLOW {
+                    bad.lock().unwrap().push("an emit took more than 300 ms".to_string());
+                }
+                x ^= x << 13;
+                x ^= x >> 7;
+                x ^= x << 17;
+                if x % 7 == 0 {
+                    thread::yield_now();
+                }
+            }
+            acked.lock().unwrap()[p] = mine;
+        }));
+    }
+    for h in prods {
+        let _ = h.join();
+    }
+    // quiescence: everything acknowledged must come out
+    let total = okcount.load(Ordering::Relaxed) as usize;
+    let deadline = Instant::now() + Duration::from_millis(5000);
+    loop {
+        let st = rig.gate.m.lock().unwrap();
+        if st.log.len() >= total || Instant::now() >= deadline {
+            break;
+        }
+        drop(st);
+        thread::sleep(Duration::from_millis(1));
+    }
+    stop.store(true, Ordering::Release);
+    let _ = sampler.join();
+    let mut problems = bad.lock().unwrap().clone();
+    let (sub, dr, qd) = (q0.submitted(), q0.drained(), q0.queued());
+    drop(q0);
+    let mut rig = rig;
+    rig.handles.clear();
+    {
+        let deadline = Instant::now() + Duration::from_millis(3000);
+        let mut st = rig.gate.m.lock().unwrap();
+        while !st.dropped {
+            let now = Instant::now();
+            if now >= deadline {
+                break;
+            }
+            let (g, _) = rig.gate.cv.wait_timeout(st, deadline - now).unwrap();
+            st = g;
+        }
+        if !st.dropped {
+            problems.push("the wrapped sink was not dropped after the last handle was dropped".to_string());
+        }
+        let acked = acked.lock().unwrap();
+        let mut seen: Vec<Vec<usize>> = vec![vec![]; nprod];
+        for (m, _, _) in st.log.iter() {
+            let (a, b) = m[1..].split_once(".s").unwrap();
+            let p: usize = a.parse().unwrap();
+            let i: usize = b.split(':').next().unwrap().parse().unwrap();
+            seen[p].push(i);
+        }
+        for p in 0..nprod {
+            if seen[p] != acked[p] {
+                problems.push(format!(
+                    "producer {}: acknowledged {} metrics, wrapped sink received {} (first difference at position {})",
+                    p,
+                    acked[p].len(),
+                    seen[p].len(),
+                    seen[p].iter().zip(acked[p].iter()).position(|(a, b)| a != b).unwrap_or(seen[p].len().min(acked[p].len()))
+                ));
+            }
+        }
+        if sub as usize != total {
+            problems.push(format!("submitted() = {} but {} emits returned Ok", sub, total));
+        }
+        if dr as usize != total || qd != 0 {
+            problems.push(format!("at quiescence drained() = {}, queued() = {}, {} metrics accepted", dr, qd, total));
+        }
+    }
+    if problems.is_empty() {
+        format!("ok {} {}", total, nprod * nemit - total)
+    } else {
+        format!("bad {}", problems.join(" / "))
+    }
+}
+
+pub fn run_case(line: &str) -> String {
+    let t: Vec<&str> = line.split_whitespace().collect();
+    if t[0] == "QS" {
+        return run_soak(&t);
+    }
+    assert!(t[0] == "Q");
+    let cap = if t[1] == "u" { None } else { Some(t[1].parse::<usize>().unwrap()) };
+    let handler = t[2] == "1";
+    let me = thread::current().id();
+    let mut rig = Rig::new(cap, handler);
+    rig.settle();
+    let mut out: Vec<String> = vec![];
+    let mut attempt = 0usize;
+    let acts: Vec<&str> = if t[3] == "-" { vec![] } else { t[3].split(',').collect() };
+    let mut stuck = false;
+    for a in acts {
+        if stuck {
+            // the background side is wedged: do not wait again and again
+            out.push("-".to_string());
+            continue;
+        }
+        let (op, arg) = a.split_at(1);
+        let t0 = Instant::now();
+        let mut o = match op {
+            "E" => {
+                let h: usize = arg.parse().unwrap();
+                let metric = format!("metric.number.{}:1|c", attempt);
+                attempt += 1;
+                let r = rig.handles[h].as_ref().expect("emit on a dropped handle").emit(&metric);
+                match r {
+                    Ok(n) => {
+                        rig.accepted.push(metric.clone());
+                        if n == metric.len() {
+                            "k".to_string()
+                        } else {
+                            format!("k!{}", n)
+                        }
+                    }
+                    Err(e) => {
+                        if e.to_string().contains("full") {
+                            "f".to_string()
+                        } else {
+                            "x".to_string()
+                        }
+                    }
+                }
+            }
+            "C" => {
+                let h: usize = arg.parse().unwrap();
+                let c = rig.handles[h].as_ref().expect("clone of a dropped handle").clone();
+                rig.handles.push(Some(c));
+                "c".to_string()
+            }
+            "D" => {
+                let h: usize = arg.parse().unwrap();
+                let x = rig.handles[h].take().expect("double drop");
+                drop(x);
+                "d".to_string()
+            }
+            "R" => {
+                let outcome = match arg {
+                    "k" => Outcome::Ok,
+                    "p" => Outcome::Panic,
+                    _ => Outcome::Err(arg[1..].parse().unwrap()),
+                };
+                let is_panic = outcome == Outcome::Panic;
+                let mut st = rig.gate.m.lock().unwrap();
+                if st.inside.is_none() {
+                    "r-".to_string()
+                } else {
+                    if is_panic {
+                        rig.panics_released += 1;
+                    }
+                    let n = st.log.len();
+                    st.release = Some(outcome);
+                    rig.gate.cv.notify_all();
+                    let deadline = Instant::now() + SETTLE;
+                    let mut ok = true;
+                    while st.log.len() == n {
+                        let now = Instant::now();
+                        if now >= deadline {
+                            ok = false;
+                            break;
+                        }
+                        let (g, _) = rig.gate.cv.wait_timeout(st, deadline - now).unwrap();
+                        st = g;
+                    }
+                    if ok { "r".to_string() } else { "r!stuck".to_string() }
+                }
+            }
+            "S" => {
+                let h = rig.handles.iter().flatten().next().expect("sample needs a live handle");
+                format!("s{}.{}.{}.{}", h.submitted(), h.drained(), h.queued(), h.panics())
+            }
+            _ => panic!("bad action {}", a),
+        };
+        if (op == "E" || op == "D" || op == "C") && t0.elapsed() > SLOW {
+            o.push_str("!slow");
+        }
+        if op != "S" && !rig.settle() {
+            o.push_str("!stuck");
+        }
+        if o.contains("stuck") {
+            stuck = true;
+        }
+        out.push(o);
+    }
+    // final observations
+    let (dl, hd, rel, caller) = {
+        let st = rig.gate.m.lock().unwrap();
+        let idx = |m: &String| -> String {
+            match rig.accepted.iter().position(|x| x == m) {
+                Some(i) => i.to_string(),
+                None => format!("?{}", m),
+            }
+        };
+        let dl: Vec<String> = st
+            .log
+            .iter()
+            .map(|(m, o, _)| {
+                format!(
+                    "{}:{}",
+                    idx(m),
+                    match o {
+                        Outcome::Ok => "k".to_string(),
+                        Outcome::Err(id) => format!("e{}", id),
+                        Outcome::Panic => "p".to_string(),
+                    }
+                )
+            })
+            .collect();
+        // the handler runs right after the failing call: #completed deliveries identifies its metric
+        let hd: Vec<String> = st
+            .handled
+            .iter()
+            .map(|(id, n, _)| {
+                let m = if *n >= 1 { idx(&st.log[*n - 1].0) } else { "?".to_string() };
+                format!("{}:{}@{}", m, id, n)
+            })
+            .collect();
+        let caller = st.log.iter().any(|(_, _, t)| *t == me) || st.handled.iter().any(|(_, _, t)| *t == me);
+        let worker_mismatch = st
+            .handled
+            .iter()
+            .any(|(_, n, t)| *n == 0 || st.log[*n - 1].2 != *t);
+        (dl, hd, st.dropped, caller || worker_mismatch)
+    };
+    // clean up: release everything, drop everything, give the worker a moment to leave
+    {
+        let mut st = rig.gate.m.lock().unwrap();
+        st.auto = true;
+        rig.gate.cv.notify_all();
+    }
+    rig.handles.clear();
+    {
+        let deadline = Instant::now() + Duration::from_millis(if stuck { 50 } else { 1000 });
+        let mut st = rig.gate.m.lock().unwrap();
+        while !st.dropped {
+            let now = Instant::now();
+            if now >= deadline {
+                break;
+            }
+            let (g, _) = rig.gate.cv.wait_timeout(st, deadline - now).unwrap();
+            st = g;
+        }
+    }
+    format!(
+        "A:{}|DL:{}|H:{}|X:rel{}{}",
+        out.join(","),
+        dl.join(";"),
+        hd.join(";"),
+        if rel { 1 } else { 0 },
+        if caller { " caller" } else { "" }
+    )
 }
